@@ -452,10 +452,11 @@ impl Builder {
         let addr = addr.to_socket_addr().map_err(Into::into)?;
         match addr {
             SocketAddr::V4(addr) => {
-                if self
-                    .transports
-                    .iter()
-                    .any(|t| t.is_ipv4_default() && t.is_user_defined())
+                if opts.is_default_route()
+                    && self
+                        .transports
+                        .iter()
+                        .any(|t| t.is_ipv4_default() && t.is_user_defined())
                 {
                     bail!(InvalidSocketAddr::DuplicateDefaultAddr);
                 }
@@ -473,10 +474,11 @@ impl Builder {
                 });
             }
             SocketAddr::V6(addr) => {
-                if self
-                    .transports
-                    .iter()
-                    .any(|t| t.is_ipv6_default() && t.is_user_defined())
+                if opts.is_default_route()
+                    && self
+                        .transports
+                        .iter()
+                        .any(|t| t.is_ipv6_default() && t.is_user_defined())
                 {
                     bail!(InvalidSocketAddr::DuplicateDefaultAddr);
                 }
